@@ -48,3 +48,28 @@ def F(fn, *args):
 def sets(d):
     """dict of field -> canonical text  =>  list of `set` ops"""
     return ["set %s %s" % (k, v) for k, v in d.items()]
+
+class ClassGen:
+    """What the generic properties need to know about one codec class.
+
+    cls            adapter / wire name
+    valid          callable(rng) -> dict  field -> canonical value text   (a random *valid* object)
+    opts           list of option tuples (canonical texts) to construct the object with
+    length_fields  [(offset, size, 'big'|'little')] of length/count fields inside the packed bytes
+    alt            callable(rng, field, current_text) -> another canonical text for that field, or None
+                   (used to build twins that differ in exactly one public field; default: redraw valid())
+    eq_fields      public fields that take part in equality tests (default: all keys of valid())
+    has_eq         the class defines __eq__
+    pack_args / unpack_args   extra canonical arguments for pack / unpack
+    """
+    def __init__(self, cls, valid, opts=((),), length_fields=(), alt=None, eq_fields=None, has_eq=True,
+                 pack_args=(), unpack_args=(), can_pack=True, can_unpack=True):
+        self.cls, self.valid, self.opts = cls, valid, [tuple(o) for o in opts]
+        self.length_fields, self.alt, self.eq_fields, self.has_eq = list(length_fields), alt, eq_fields, has_eq
+        self.pack_args, self.unpack_args = tuple(pack_args), tuple(unpack_args)
+        self.can_pack, self.can_unpack = can_pack, can_unpack
+
+    def pack_op(self):
+        return " ".join(("pack",) + self.pack_args)
+    def unpack_op(self, b):
+        return " ".join(("unpack", hexb(b)) + self.unpack_args)
